@@ -267,7 +267,7 @@ def Account.output (so : ScriptOf) (a : Account) : TxOut := ⟨a.value, so a.ver
 
 inductive Refusal
   | badState | downgrade | termsFail | aboveMax | expiryLow | expiryHigh
-  | unparsable | unsupportedScript | belowMin | unknownWitness | closeDust
+  | unparsable | unsupportedScript | belowMin | unknownWitness | closeDust | ownScript
   | fundFail | fundWrongScript | fundWrongValue
   | scriptNotFound | expiredNoModify
   | noInputs | noOutputs | negativeOutput | outputTooLarge | totalTooLarge | duplicateInputs
@@ -585,6 +585,8 @@ def withdraw (so : ScriptOf) (a : Account) (outputs : List TxOut) (rate : Int) (
   | .error r => refuse r
   | .ok nv =>
   let (newOut, mods) := createNewAccountOutput so a nv newExpiry newVersion
+  -- (regenerated fact) requested outputs paying to the new account script itself are refused
+  if withdrawRefusesOwnScript ∧ outputs.any (fun o => o.script = newOut.script) then refuse .ownScript else
   let tx := createSpendTx so a (newOut :: outputs)
   spendAccount so a .withdraw tx wt (mods ++ [.state StatePendingUpdate]) best f
 
